@@ -122,6 +122,70 @@ theorem C17_history_counters (dir : String) (cfg : Cfg) (hcfg : cfg.Valid) (h : 
     rw [stateAt_succ dir cfg h n hn]
     exact this
 
+/-- **which restarts adopt.**  The case distinction of `RestartCounters` (is there a merge directory
+    with a marker?) follows the history: initially there is none; a `Merge` that answers `.ok` leaves a
+    merge directory WITH a marker, one that answers an error a merge directory WITHOUT; a restart
+    leaves nothing adoptable (the adopted directory is removed, a marker-less one is ignored and
+    stays marker-less); no other call touches the merge directory.  So a restart adopts — and
+    over-reports `DiskSize` / `Reclaimable` by `S` — exactly when the last `Merge` since the previous
+    restart (or since the start) answered `.ok`. -/
+theorem C17_history_marker (dir : String) (cfg : Cfg) (hcfg : cfg.Valid) (h : List HOp)
+    (hok : ∀ op ∈ h, HOpOK dir op) (hwf : WF false h = true)
+    (hrunok : RunOK dir (openDB St.init dir cfg).1 h) :
+    NoMarker (stateAt dir cfg h 0).world dir ∧
+    ∀ n (hn : n < h.length),
+      (∀ order, h[n] = .merge order →
+        ((merge (stateAt dir cfg h n) order).2 = .ok →
+          ∃ md, (stateAt dir cfg h (n + 1)).world.get (mergeDirName dir) = some md ∧ md.marker ≠ none) ∧
+        ((∃ e, (merge (stateAt dir cfg h n) order).2 = .err e) → NoMarker (stateAt dir cfg h (n + 1)).world dir)) ∧
+      (∀ cfg', h[n] = .restart cfg' → NoMarker (stateAt dir cfg h (n + 1)).world dir) ∧
+      ((∀ order, h[n] ≠ .merge order) → (∀ cfg', h[n] ≠ .restart cfg') →
+        (stateAt dir cfg h (n + 1)).world.get (mergeDirName dir) = (stateAt dir cfg h n).world.get (mergeDirName dir)) := by
+  obtain ⟨_, hi0⟩ := HInv0_fresh dir cfg hcfg
+  refine ⟨?_, ?_⟩
+  · obtain ⟨db, g, _, _, _, _, hms, _⟩ := hi0
+    rcases hms with hnm | ⟨n, gm, vis, hmo⟩
+    · exact hnm
+    · obtain ⟨md, hmd, _⟩ := hmo.mdir
+      have hmd' : (openDB St.init dir cfg).1.world.get (mergeDirName dir) = some md := hmd
+      rw [openDB_fresh dir cfg hcfg] at hmd'
+      simp [World.get, if_neg (Engine.mergeDirName_ne dir)] at hmd'
+  · intro n hn
+    have key := steps dir (fun _ => True)
+      (fun s σ op =>
+        (∀ order, op = .merge order →
+          ((merge s order).2 = .ok →
+            ∃ md, (hstep dir s op).1.world.get (mergeDirName dir) = some md ∧ md.marker ≠ none) ∧
+          ((∃ e, (merge s order).2 = .err e) → NoMarker (hstep dir s op).1.world dir)) ∧
+        (∀ cfg', op = .restart cfg' → NoMarker (hstep dir s op).1.world dir) ∧
+        ((∀ order, op ≠ .merge order) → (∀ cfg', op ≠ .restart cfg') →
+          (hstep dir s op).1.world.get (mergeDirName dir) = s.world.get (mergeDirName dir)))
+      (by
+        intro s σ op hi hop _ hwf' hst
+        obtain ⟨db0, hs0, hd0⟩ := HInv_open hi
+        refine ⟨?_, ?_, ?_⟩
+        · intro order e
+          subst e
+          obtain ⟨dead, hQ⟩ := quiet_of_wf hi hwf' rfl
+          exact mergeQ_marker hQ order hop hst
+        · intro cfg' e
+          subst e
+          obtain ⟨dead, hQ⟩ := quiet_of_wf hi hwf' rfl
+          exact restartQ_nomarker hQ cfg' hop hst
+        · intro h1 h2
+          cases op with
+          | a op => exact astep_mdir hs0 hd0 op
+          | merge order => exact absurd rfl (h1 order)
+          | restart cfg' => exact absurd rfl (h2 cfg')
+          | backup dest =>
+            obtain ⟨X, e⟩ := backup_eq hs0 dest
+            show (backup s dest).1.world.get (mergeDirName dir) = _
+            rw [e]
+            exact MergeP.get_set_ne _ _ _ _ (fun e => hop.2 e.symm))
+      h _ ⟨specEmpty, .none⟩ hi0.toQ (fun op hop => ⟨hok op hop, trivial⟩) hwf hrunok n hn
+    rw [stateAt_succ dir cfg h n hn]
+    exact key
+
 /-- the quantities of (a) on the handle, without the ghost state: what a caller of `Stat` sees -/
 theorem C17_history_stat (dir : String) (cfg : Cfg) (hcfg : cfg.Valid) (h : List HOp)
     (hok : ∀ op ∈ h, HOpOK dir op) (hwf : WF false h = true)
